@@ -17,8 +17,10 @@ GEN_MODULES = [("GenCpc",
                 ["MIN_LG_K", "MAX_LG_K", "KXP_BYTE_TABLE", "INVERSE_POWERS_OF_2",
                  "LIT_update", "LIT_row_col_update", "LIT_update_hip", "LIT_update_sparse",
                  "LIT_promote_sparse_to_windowed", "LIT_update_windowed", "LIT_move_window", "LIT_refresh_kxp",
-                 "LIT_build_bit_matrix", "LIT_determine_flavor", "LIT_determine_correct_offset"],
+                 "LIT_build_bit_matrix", "LIT_determine_flavor", "LIT_determine_correct_offset",
+                 "LIT_rebuild", "LIT_maybe_insert", "UPSIZE_NUMERATOR", "UPSIZE_DENOMINATOR"],
                 {"cpc/mod.rs": ["determine_flavor", "determine_correct_offset"],
+                 "cpc/pair_table.rs": ["rebuild", "maybe_insert"],
                  "cpc/sketch.rs": ["update", "row_col_update", "update_hip", "update_sparse", "promote_sparse_to_windowed",
                                    "update_windowed", "move_window", "refresh_kxp", "build_bit_matrix"]}),
                ("GenCpcPhase", ["cpc/compression.rs"], ["LIT_determine_pseudo_phase"],
@@ -74,11 +76,41 @@ class Sim:
                 n += cj
         return c, n
 
+    def cap(self):
+        """capacity of the surprising-value table: PairTable::rebuild asserts lg_size <= 26 and lg_size + 1 <= lg_k + 6,
+        maybe_insert grows at 4 n > 3 * 2^lg_size"""
+        return 3 * (1 << min(26, self.lgk + 5)) // 4
+
+    def load_at(self, rc, off):
+        """number of surprising values at window offset [off] once rc is in the matrix"""
+        col = rc & 63
+        new = 0 if self.has(rc) else 1
+        n = 0
+        for j in range(64):
+            cj = self.cols[j] + (new if j == col else 0)
+            if j < off:
+                n += self.k - cj
+            elif j >= off + 8:
+                n += cj
+        return n
+
+    def overflows(self, rc):
+        """would offering rc make the table outgrow its capacity (the crate panics, the model is Stuck)?"""
+        if self.has(rc):
+            return False
+        c = self.c + 1
+        if 32 * self.c < 3 * self.k:                       # the insert happens in sparse mode
+            return c > self.cap()
+        off = correct_offset(self.lgk, self.c)
+        if (rc & 63) >= off + 8 and self.load_at(rc, off) > self.cap():
+            return True
+        return 8 * c >= (27 + 8 * off) * self.k and self.load_at(rc, off + 1) > self.cap()
+
     def ok(self, rc):
         if rc == U32MAX or (rc >> 6) >= self.k:
             return False
         c, n = self.surprises_after(rc)
-        return 8 * c < 475 * self.k and n <= 24 * self.k and n <= 3 * (1 << 24)
+        return 8 * c < 475 * self.k and not self.overflows(rc)
 
     def add(self, rc):
         if not self.has(rc):
@@ -322,6 +354,26 @@ def gen_case(rng, cid, tier, kind, lgk, codec=False):
         base = rng.getrandbits(62)
         for i in range(n):
             b.item(base + i)
+    elif kind == "overflow":
+        # beyond the table capacity: columns from the far right make every coupon a surprising one and every
+        # early-zone position a surprising zero; the first pair the table cannot hold must panic on both sides
+        stream_hashed(b, rng, rng.choice([0, 2, k // 4]))
+        cols = list(range(63, 20, -1))
+        if rng.random() < 0.5:
+            rng.shuffle(cols)
+        done = False
+        for col in cols:
+            rows = list(range(k)); rng.shuffle(rows)
+            for r in rows:
+                rc = (r << 6) | col
+                if 8 * (b.sim.c + 1) >= 475 * k:
+                    done = True; break
+                if b.sim.overflows(rc):
+                    b.ops.append((2, [rc]))          # expected: PANIC (model Stuck, crate assert in PairTable::rebuild)
+                    done = True; break
+                b.rc(rc)
+            if done:
+                break
     elif kind == "probe_runs":
         for _ in range(3):
             stream_probe_runs(b, rng)
@@ -342,11 +394,12 @@ def gen_case(rng, cid, tier, kind, lgk, codec=False):
                 b.rc((rng.choice([0, 1, k - 1, k - 2, rng.randrange(k)]) << 6) | geometric_col(rng, 0.3))
             else:
                 b.rc((rng.choice([k - 1, k - 2]) << 6) | rng.choice([62, 63, 63]))
-    b.dump_budget = max(b.dump_budget, 1)
-    b.observe()
+    if kind != "overflow":
+        b.dump_budget = max(b.dump_budget, 1)
+        b.observe()
     ops = b.ops
     # dense threshold probes of the pure functions
-    for l in ([lgk] + [rng.randint(4, 26)]):
+    for l in ([lgk] + [rng.randint(4, 26)]) if kind != "overflow" else []:
         for c in rng.sample(probes(l), 12):
             ops.append((6, [l, c]))
             ops.append((7, [l, c]))
@@ -500,8 +553,19 @@ def gen_union_case(rng, cid, tier, big):
 
     def in_domain(lg, ms):
         lgm, rows = union_matrix(lg, ms)
+        km = 1 << lgm
         c = sum(bin(w).count("1") for w in rows.values())
-        return 8 * c < 475 * (1 << lgm) and c <= 20 * (1 << lgm)
+        if not 8 * c < 475 * km:
+            return False
+        cap = 3 * (1 << min(26, lgm + 5)) // 4
+        if 32 * c < 3 * km:
+            return c <= cap
+        # every intermediate accumulator walk and the final table stay far below the capacity: bound the
+        # surprising values at every offset up to the final one by the crude count (zeros of the final matrix below
+        # the final offset) + (all coupons)
+        off = correct_offset(lgm, c)
+        zeros = sum(km - sum((rows.get(r, 0) >> j) & 1 for r in range(km)) for j in range(off))
+        return zeros + c <= cap
 
     orders = [list(range(n_in))]
     if n_in >= 2:
@@ -693,14 +757,22 @@ def gen_size(rng, tier, n):
     """C18: max_serialized_bytes over the whole lg_k range (incl. the out-of-range panics), and serialized sketches"""
     ops = [(32, [l]) for l in range(4, 27)]
     cases = [Case(0, [4, 9001], ops, tag="cpc-size-table")]
-    for l in (3, 27):
-        cases.append(Case(len(cases), [4, 9001], [(32, [l])], tag="cpc-size-out-of-range"))
     for c in gen_codec(rng, tier, 16 if tier == "quick" else 60):
         c.cid = len(cases); cases.append(c)
     return cases
 
 
+def gen_overflow(rng, tier, n):
+    """C05 boundary leg: the surprising-value table's capacity; the last op of every case must panic on both sides"""
+    p = [("overflow", 4)] * 4 + [("overflow", 5)] * 3 + [("overflow", 6)]
+    if tier != "quick":
+        p = p * 4 + [("overflow", 7)]
+    return [gen_case(rng, i, tier, kind, lgk) for i, (kind, lgk) in enumerate(p)]
+
+
 def gen(rng, tier, n=None, focus=None):
+    if focus == "overflow":
+        return gen_overflow(rng, tier, n)
     if focus == "size":
         return gen_size(rng, tier, n)
     if focus == "malformed":
